@@ -91,6 +91,7 @@ func RunScenario(t *testing.T, sc *Scenario, src simrt.Source, keepTape bool) (r
 		}
 		s.OnQuiescent = func() { fam.quiescent(w) }
 		s.MaxYields = 3000000
+		s.NoPre = depSites()
 		s.GoLabel("a-setup", func() { fam.setup(w) })
 		horizon := fam.horizon()
 		maxSteps := sc.MaxSteps
@@ -166,6 +167,19 @@ func hashEvents(evs []Ev, sids map[string]string) uint64 {
 		}
 	}
 	return h
+}
+
+var depSitesCache []bool
+
+// depSites marks the sites inside vendored dependencies.
+func depSites() []bool {
+	if depSitesCache == nil {
+		depSitesCache = make([]bool, len(simrt.SiteTable))
+		for i, s := range simrt.SiteTable {
+			depSitesCache[i] = strings.HasPrefix(s, "_deps/")
+		}
+	}
+	return depSitesCache
 }
 
 // hotSites marks the sites of the named functions.
